@@ -339,8 +339,18 @@ pub fn judge_differing(rep: &mut Report, cx: &Cx) -> Option<DiffStats> {
     }
     if ev == ov { rep.count("facts.class_level_equal"); }
     else { for x in diff::diff(&ev, &ov, 12) { rep.violation(format!("C13 rewritten class fact {}", x.signature()), cx.detail(json!({"of": "class-level facts of a differing class", "at": x.at, "expected": x.expected, "observed": x.observed}))); } }
+    if fok && mok && iok && rep.samples.len() >= 2 && c.fields.len() + c.methods.len() <= 10 && c != s {
+        let show = |l: &[(JS, JS)]| l.iter().map(|k| format!("{} {}", k.0.show(), k.1.show())).collect::<Vec<_>>();
+        let marked = |vis: &[Annotation], invis: &[Annotation]| { let (mut v, mut i) = (vis.to_vec(), invis.to_vec()); take_marks(&mut v, &mut i).iter().map(|m| format!(" @{m:?}")).collect::<String>() };
+        rep.sample(|| json!({"kind": "differing class", "entry": cx.entry,
+            "client_fields": show(&cf_), "server_fields": show(&sf), "output_fields": o.fields.iter().map(|f| format!("{} {}{}", f.name.show(), f.desc.show(), marked(&f.vis_annotations, &f.invis_annotations))).collect::<Vec<_>>(),
+            "client_methods": show(&cm), "server_methods": show(&sm), "output_methods": o.methods.iter().map(|m| format!("{} {}{}", m.name.show(), m.desc.show(), marked(&m.vis_annotations, &m.invis_annotations))).collect::<Vec<_>>(),
+            "client_interfaces": ci.iter().map(|i| i.show()).collect::<Vec<_>>(), "server_interfaces": si.iter().map(|i| i.show()).collect::<Vec<_>>(), "output_interfaces": o.interfaces.iter().map(|i| i.show()).collect::<Vec<_>>(),
+            "orders_compatible": {"fields": fst.compatible, "methods": mst.compatible}}));
+    }
     Some(DiffStats { fields: fst, methods: mst, interfaces: ist })
 }
-fn serde_value(c: &Class) -> Value { let mut c = c.clone(); project::normalise(&mut c); serde_json::to_value(&c).unwrap_or(Value::Null) }
+/// class-level facts as a JSON object; an InnerClasses attribute without entries states nothing and counts as absent
+fn serde_value(c: &Class) -> Value { let mut c = c.clone(); project::normalise(&mut c); if c.inner_classes.as_ref().is_some_and(|l| l.is_empty()) { c.inner_classes = None; } serde_json::to_value(&c).unwrap_or(Value::Null) }
 
 pub fn hex(b: &[u8]) -> String { cf::model::hex(b) }
